@@ -65,11 +65,10 @@ def run(ctx: Ctx) -> None:
     simcfg = H.write_mc_cfg("sim", MaxMsgs=2, MaxLines=4, MaxPending=6,
                             LexIds="{1, 2, 3, 4, 5, 6, 7, 8, 9, 10, 11, 12, 13, 14, 15, 16, 17, 18, 19, 20, 21, 22, 23, 24, 25, "
                                    "26, 27, 28, 29, 30, 31, 32, 33, 34, 35, 36, 37, 38, 39, 40, 41, 42, 43, 44, 45, 46, 47, 48, 49}")
-    behs, _res = simulate_behaviours("HttpFramingMC", simcfg, num=ctx.pick(500, 5000), depth=ctx.pick(12, 16),
+    behs, _res = simulate_behaviours("HttpFramingMC", simcfg, num=ctx.pick(800, 6000), depth=ctx.pick(12, 16),
                                      seed=ctx.seed, timeout=300)
     streams = H.behaviours_to_streams(behs)
     ctx.log(f"{len(behs)} simulated behaviours -> {len(streams)} distinct lexeme streams")
-    harness = {k: None for k in H.LIMIT_CONFIGS}
     for data, cuts in streams:
         g = H.Group("request", data, H.DEFAULT_LIMITS, src="tlc-sim", label="lexeme path")
         g.parse([])
@@ -79,10 +78,10 @@ def run(ctx: Ctx) -> None:
     _flush(ctx, groups, stats, "model paths", force=True)
     # ---- 3. code -> spec: generated / mutated / random streams x limit configurations
     lim_names = ["default", "default", "small-equal", "line>field", "line<field", "tiny-read-buffer"]
-    n_valid = ctx.pick(110, 1500)
+    n_valid = ctx.pick(200, 120)     # thorough: every applicable position of every class
     per_class = ctx.pick(4, None)
     k = 0
-    conn_budget = ctx.pick(500, 8000)
+    conn_budget = ctx.pick(600, 8000)
     conn_done = 0
     conn_h = H.ConnHarness(H.DEFAULT_LIMITS)
     for src, label, data in H.request_corpus(rng, n_valid, per_class, ctx.pick(4, 12)):
